@@ -120,6 +120,8 @@ fn main() {
         Some("sweep") => sweep::cmd_sweep(&args[1..]),
         #[cfg(feature = "full")]
         Some("sweep32") => sweep32::cmd_sweep32(&args[1..]),
+        #[cfg(feature = "full")]
+        Some("sweepf16") => sweep32::cmd_sweepf16(&args[1..]),
         Some("c20run") => c20::cmd_run(&args[1..]),
         #[cfg(feature = "full")]
         Some("c20corpus") => c20::cmd_corpus(&args[1..]),
